@@ -93,6 +93,8 @@ class C13Oracle(Oracle):
             elif isinstance(o, list):
                 objs[h] = ("list", repr(o))
         files = {p: bytes(d) for p, d in world.fs.files.items()}
+        for d in world.fs.dirs:  # directories are part of what a call may not create or remove
+            files[d + "/"] = b"<dir>"
         return objs, ids, files
 
     def before(self, run, out):
@@ -542,10 +544,13 @@ def tg_catalogue(g, w, h, tiers, tgs, wide, fileno, files_on):
             fileno[0] += 1
             path = f"/simfs/c13_{fileno[0]}.TextGrid"
             prev = rng.random()
-            if prev < 0.5:
+            if prev < 0.12:
+                # destination in a directory that does not exist: a rejected save must not create it
+                path = f"/simfs/newdir_{fileno[0]}/sub/c13.TextGrid"
+            elif prev < 0.5:
                 junk = rng.randbytes(0 if rng.random() < 0.25 else rng.randrange(1, 600))
                 saves.append({"op": "env.put", "a": [path, {"$b": junk.hex()}]})
-            else:
+            elif "newdir" not in path:
                 saves.append({"op": "tg.save", "recv": h, "a": [path, g.pick(FORMATS), True],
                               "k": {"reportingMode": "silence"}, "probe": True, "tag": "E-presave"})
             saves.append({"op": "tg.save", "recv": h, "a": [path] + spec["a"], "k": spec["k"],
